@@ -68,6 +68,8 @@ func checkC01(c *Ctx) {
 	r.Rule("C01.c", "run-time conditionals and short-circuit operators", 5)
 	r.Rule("C01.d", "no reordering primitive outside the frozen set; no operand inside an emitter-introduced closure", 3)
 	r.Rule("C01.f", "every checked-in generated file type-checks (go/types)", 20)
+	r.Import("C10.", "C01.g", "`=` / `<>` are lowered to frt.OpEqual / frt.OpNotEqual, which are total structural equality (the C10 conditions, which are also necessary for C01: a comparison that panics or answers by identity changes the program's output)", 6, func() { checkC10(c) })
+	r.Import("C11.anchor", "C01.h", "string and interpolated literals reach the Go text through the one emission path whose closed forms C11 decides (an interpolated literal is always frt.SInterP(format, names…), whatever its number of holes)", 6, func() { checkC11Anchors(c) })
 	f := c.LoadFC("fc")
 	if f == nil {
 		return
